@@ -62,14 +62,14 @@ def num_pipe(ctx, verdict, cases, name="digits-nums"):
     return apalache_decimal(ctx, verdict, exprs, flat_cases, sigs, name, spec)
 
 
-def apalache_decimal(ctx, verdict, exprs, cases, sigs, name, spec, per_module=400, group=20):
+def apalache_decimal(ctx, verdict, exprs, cases, sigs, name, spec, per_module=400, group=20, extends="Decimal", modprefix="DecObs"):
     from concurrent.futures import ThreadPoolExecutor
     chunks = [list(range(i, min(i + per_module, len(exprs)))) for i in range(0, len(exprs), per_module)]
 
     def one(args):
         ci, ks = args
-        mod = "DecObs_%d" % ci
-        lines = ["---- MODULE %s ----" % mod, "EXTENDS Decimal"]
+        mod = "%s_%d" % (modprefix, ci)
+        lines = ["---- MODULE %s ----" % mod, "EXTENDS " + extends]
         for k in ks:
             lines.append("O%d == %s" % (k, exprs[k]))
             lines.append("B%d == IF O%d THEN {} ELSE {%d}" % (k, k, k))
@@ -79,7 +79,7 @@ def apalache_decimal(ctx, verdict, exprs, cases, sigs, name, spec, per_module=40
         lines += ["VARIABLE", "  \\* @type: Set(Int);", "  bad",
                   "Init == bad = " + " \\cup ".join("U%d" % gi for gi in range(len(groups))),
                   "Next == UNCHANGED bad", "Ok == bad = {}", "===="]
-        return vlib.apalache(ctx, "\n".join(lines), mod, timeout=1500, extra_files={"Decimal.tla": spec})
+        return vlib.apalache(ctx, "\n".join(lines), mod, timeout=1500, extra_files={extends + ".tla": spec})
     failing = set()
     with ThreadPoolExecutor(max_workers=min(8, len(chunks) or 1)) as ex:
         for bad in ex.map(one, list(enumerate(chunks))):
